@@ -338,6 +338,9 @@ func main() {
 		}
 		d = newDigest()
 		for _, lo := range []int{0, 1, 9999, 10001} {
+			if lo > n {
+				continue
+			}
 			str := string(rs[lo:])
 			d.w(uint32(len(str)))
 			d.str(str)
